@@ -96,8 +96,30 @@ def data_factory(flavour):
 
 
 def build(spec, flavour):
+    """flavour 'X~rev': the tree of flavour X, but created level by level with every sibling group last-to-first
+    (prepended): the registration order of the id index then differs from the pre-order (as after moves)."""
+    flavour, _, order = flavour.partition("~")
     mk = data_factory(flavour)
     tree = Tree("T", calc_data_id=gen.keyed_calc_id) if flavour == "keyed" else Tree("T")
+    if order == "rev":
+        nodes = [None] * len(spec.nodes)
+        ch = gen.children_of([r[0] for r in spec.nodes])
+        level = [-1]
+        while level:
+            nxt = []
+            for pi in reversed(level):  # parents last-to-first as well: clones below different parents register in reverse
+                parent = tree if pi == -1 else nodes[pi]
+                for ci in reversed(ch[pi]):
+                    _p, lab, did, _kind = spec.nodes[ci]
+                    kw = {"before": True}
+                    if did is not None:
+                        kw["data_id"] = did
+                    if flavour == "int":
+                        kw["node_id"] = ci + 1
+                    nodes[ci] = parent.add(mk(lab), **kw)
+                nxt += ch[pi]
+            level = nxt
+        return tree, nodes, mk
     nodes = []
     for i, (p, lab, did, _kind) in enumerate(spec.nodes):
         parent = tree if p == -1 else nodes[p]
@@ -227,6 +249,7 @@ def make_world(spec, flavour):
 
 def mutations(spec, flavour):
     """single changes applied between a first evaluation and the checked search"""
+    flavour = flavour.partition("~")[0]
     n = len(spec)
     labs = ALPHABET[flavour]
     out = []
@@ -268,7 +291,7 @@ def warmed_and_mutated(spec, flavour, mut):
 
 def after_cases(spec, flavour):
     """(mutation, inner search case) pairs: pattern searches from the tree and every surviving position"""
-    pats = PATTERNS[flavour][:6]
+    pats = PATTERNS[flavour.partition("~")[0]][:6]
     for mut in mutations(spec, flavour):
         for ms in pats:
             yield ("after", mut, ("find_all.m", -1, False, ms, None))
@@ -497,6 +520,7 @@ ALPHABET = {"str": ("a", "b", "ab"), "case": ("a", "A", ""), "int": ("a", "b", "
 
 def enum_cases(spec, flavour, *, max_subset_nodes=4, thin=False):
     """All cases of one tree.  thin (quick tier, trees of >= 4 nodes): limits {None, 1, 2, n+1} only."""
+    flavour = flavour.partition("~")[0]
     n = len(spec)
     ks = [None] + list(range(1, n + 2))
     if thin and n >= 4:
@@ -631,6 +655,8 @@ def inputs(tier):
     # different data filed under one explicit data_id: the id is a key, not the name
     out += [("xid", s) for s in gen.shared_id_specs(3 if quick else 4)]
     out += [("keyed", s) for s in gen.plain_specs(3 if quick else 4, alphabet=ALPHABET["keyed"])]
+    # the same string trees created in another order: registration order of the id index != pre-order
+    out += [("str~rev", s) for s in gen.plain_specs(n_str, min_n=3, alphabet=ALPHABET["str"])]
     return out, n_str
 
 
@@ -655,7 +681,7 @@ def run(prop: str, tier: str, only=None) -> Result:
         f"+ {n_rand} seeded random trees with {5 if quick else 6}..7 nodes (VERIF_SEED={seed()}); every start node and the tree; "
         "match = 15 patterns + 7 (pattern, flags) forms + every node subset as callback (<= 4 nodes; label subsets above), add_self on/off, max_results in {None, 1..n+1}" + (" ({None,1,2,n+1} for trees of >= 4 nodes)" if quick else "") + "; "
         "data / data_id / node_id keys: every label's data (present or absent), every node's data_id and node_id, literal ints 0..n+2, 7 and strings, a Node key; "
-        "tree[key], del tree[key], key in tree for all of them; histories: for trees of <= " + ("3" if quick else "4") + " nodes (str / int / equal-data flavours) every pattern search again after "
+        "tree[key], del tree[key], key in tree for all of them; every string tree of >= 3 nodes also created level by level with prepended siblings (registration order != pre-order); histories: for trees of <= " + ("3" if quick else "4") + " nodes (str / int / equal-data flavours) every pattern search again after "
         "all names and searches were evaluated once and one change was applied (set_data to every other label with and without clones, remove, move_to every target, add)"
     )
     return total
